@@ -177,16 +177,10 @@ def no_src_last_resort(P, res, rule="NO-SRC-LAST-RESORT"):
     res.floor(rule, "uses of the text-less range conversion", n, 1)
 
 
-def run(ctx, res):
-    P = ctx.P
-    no_src_last_resort(P, res)
-    # the positions of check fixes become the ranges of LSP quick-fix edits (rebuilt from line numbers), while the command
-    # line applies the same fixes by offset: a position whose line/column disagree with its offsets makes the two differ
-    from . import c23 as _c23
-    _c23.position_group_pairs(P, res)
-    fns = {p: f for p, f in P.funcs.items() if p.startswith(MOD)}
-    for need in ("lsp::offset_to_lsp_position", "lsp::line_char_to_offset", "lsp::whole_document_range", "lsp::garden_pos_to_lsp_range"):
-        P.require_fn(need)
+def utf16_units(P, res, fns=None):
+    """UTF16-UNITS (shared with C23): see the module docstring."""
+    if fns is None:
+        fns = {p: f for p, f in P.funcs.items() if p.startswith(MOD)}
     # ---- UTF16-UNITS
     result, params = U.module_analysis(P, MOD)
     n_pos = 0
@@ -229,6 +223,20 @@ def run(ctx, res):
                     "%s: `%s` combines a %s count with a %s count; the two differ as soon as the line holds a character outside ASCII" % (
                         p, opn, "/".join(sorted(ua)), "/".join(sorted(ub))), span)
     res.floor("UTF16-UNITS", "LSP Position constructions in lsp::", n_pos, 5)
+    return result, params
+
+
+def run(ctx, res):
+    P = ctx.P
+    no_src_last_resort(P, res)
+    # the positions of check fixes become the ranges of LSP quick-fix edits (rebuilt from line numbers), while the command
+    # line applies the same fixes by offset: a position whose line/column disagree with its offsets makes the two differ
+    from . import c23 as _c23
+    _c23.position_group_pairs(P, res)
+    fns = {p: f for p, f in P.funcs.items() if p.startswith(MOD)}
+    for need in ("lsp::offset_to_lsp_position", "lsp::line_char_to_offset", "lsp::whole_document_range", "lsp::garden_pos_to_lsp_range"):
+        P.require_fn(need)
+    result, params = utf16_units(P, res, fns)
     lco = P.funcs["lsp::line_char_to_offset"]
     cu = params["lsp::line_char_to_offset"]
     if any(U.UTF16 in v for v in cu.values()):
